@@ -80,7 +80,9 @@ struct Plan {
   int stdk[3];          // what GetStdHandle yields in the parent
   bool std_out_err_same = false;  // stdout and stderr of the parent are one console handle
   bool wd = false;
-  int env = 0;          // 0 extend, 1 empty; extras always given
+  int env = 0;          // 0 extend, 1 empty
+  int extra_kind = 2;   // 0 NULL, 1 empty list, 2 two entries
+  bool closes_extras = false;  // the child closes every inherited handle that is not one of its streams, keeps running, exits later
   // fault
   int fault_kind = 0;   // 0 none, 1 allocation, 2 api
   int alloc_n = 0, api = 0, nth = 0;
@@ -94,7 +96,7 @@ struct Plan {
   bool probe_blocking = false;    // exercise the (non-)blocking behaviour of read / write before the child says anything
 };
 
-const uint32_t kErrors[] = { 5, 87, 1450, 10024 /* WSAEMFILE */, 10055 /* WSAENOBUFS */ };
+const uint32_t kErrors[] = { 5, 87, 1450, 10024 /* WSAEMFILE */, 10055 /* WSAENOBUFS */, 10036 /* WSAEINPROGRESS */, 10004 /* WSAEINTR */, 10050 /* WSAENETDOWN */, 8 };
 // APIs that reproc_start can reach
 const int kStartApis[] = { WA_WSAStartup, WA_WSASocketW, WA_bind, WA_listen, WA_getsockname, WA_getsockopt, WA_connect, WA_accept, WA_shutdown, WA_ioctlsocket,
                            WA_SetHandleInformation, WA_InitializeProcThreadAttributeList, WA_UpdateProcThreadAttribute, WA_CreateProcessW, WA_MultiByteToWideChar,
@@ -173,17 +175,19 @@ Plan decode(Tape &t, long sweep)
     } else {
       f -= 25;
       p.fault_kind = 2;
-      p.error = kErrors[f % 2 == 0 ? 0 : 2];
+      bool first_error = f % 2 == 0;
       f /= 2;
       p.nth = (int) (f % 8);
       p.api = kStartApis[f / 8];
+      // two errors per call and ordinal: ACCESS_DENIED or (odd ordinals) WSAEINPROGRESS, and NO_SYSTEM_RESOURCES
+      p.error = kErrors[first_error ? (p.nth % 2 ? 5 : 0) : 2];
     }
   } else {
     p.fault_kind = (int) t.weighted({ 4, 3, 5 });
     p.alloc_n = (int) t.pick(24);
     p.api = kStartApis[t.pick((uint32_t) kNumStartApis)];
     p.nth = (int) t.weighted({ 4, 3, 2, 2, 1, 1, 1, 1, 1, 1 });
-    p.error = kErrors[t.pick(5)];
+    p.error = kErrors[t.pick(9)];
   }
   static const int sizes[] = { 0, 1, 2, 100, 4095, 4096, 4097, 20000, 65536, 70000, 200000 };
   p.out_bytes = sizes[t.pick(11)];
@@ -202,6 +206,8 @@ Plan decode(Tape &t, long sweep)
     p.args.push_back(a);
   }
   p.probe_blocking = t.coin();
+  p.extra_kind = (int) t.weighted({ 2, 1, 5 });
+  p.closes_extras = t.chance(1, 8);
   // start-up input around and beyond the capacity of the pipe
   if (p.input >= 0 && t.chance(1, 4)) {
     static const int big[] = { 65535, 65536, 65537, 70000, 200000 };
@@ -309,8 +315,9 @@ CaseResult run_case(Tape &t, long sweep)
     opt.input.size = (size_t) p.input;
   }
   const char *extra[] = { "A=1", "B=two words", nullptr };
+  const char *no_extra[] = { nullptr };
   opt.env.behavior = p.env == 0 ? REPROC_ENV_EXTEND : REPROC_ENV_EMPTY;
-  opt.env.extra = extra;
+  opt.env.extra = p.extra_kind == 0 ? nullptr : p.extra_kind == 1 ? no_extra : extra;
   if (p.wd) opt.working_directory = "C:\\work dir";
   std::wstring pblock = L"P1=x";
   pblock += L'\0';
@@ -356,6 +363,7 @@ CaseResult run_case(Tape &t, long sweep)
                      .kv("exit_code", (unsigned long long) p.exit_code)
                      .raw("args", [&] { std::vector<std::string> v; for (auto &a : p.args) v.push_back(jstr(a)); return jarr(v); }())
                      .kv("probe_blocking", p.probe_blocking)
+                     .kv("environment", std::string(p.env == 0 ? "extend" : "empty") + (p.extra_kind == 0 ? ", extras NULL" : p.extra_kind == 1 ? ", extras empty list" : ", two extras"))
                      .str();
   res.hash = mix(mix((uint64_t) p.type[0] * 64 + (uint64_t) p.type[1] * 8 + (uint64_t) p.type[2], (uint64_t) p.sh_parent * 2 + (uint64_t) p.sh_discard + (uint64_t) p.nonblocking * 4 + (uint64_t) (p.input + 1) * 8),
                  mix((uint64_t) p.fault_kind * 1000000 + (uint64_t) p.alloc_n * 10000 + (uint64_t) p.api * 100 + (uint64_t) p.nth, (uint64_t) p.stdk[0] * 9 + (uint64_t) p.stdk[1] * 3 + (uint64_t) p.stdk[2] + (uint64_t) p.out_bytes * 31 + (uint64_t) p.err_bytes * 17 + (uint64_t) p.ending * 7 + p.exit_before_read));
@@ -397,6 +405,10 @@ CaseResult run_case(Tape &t, long sweep)
   if (r == 0) v.bad(CAT_START, "zero-result", ctx + "returned 0");
   if (!started) {
     res.cls("start-failed");
+    bool absent_parent = false;
+    for (int s = 0; s < 3; s++)
+      if (effective(p, s) == REPROC_REDIRECT_PARENT && p.stdk[s] == STD_ABSENT) absent_parent = true;
+    if (!fired && !natural_fail && absent_parent) v.bad(CAT_WIRING, "absent-parent-stream-no-fallback", ctx + "a stream is redirected to a parent stream the parent does not have: the child must get the null device, but start failed with " + std::to_string(r));
     if (!fired && !natural_fail) v.bad(CAT_START, "spurious-failure", ctx + "returned " + std::to_string(r) + " although nothing was made to fail");
     if (cp->created && wsim_child_running()) v.bad(CAT_START, "failed-but-created", ctx + "returned " + std::to_string(r) + " although CreateProcessW had succeeded (a process is left behind)");
     if (fired && !natural_fail) {
@@ -551,8 +563,10 @@ CaseResult run_case(Tape &t, long sweep)
       want_env.push_back("P1=x");
       want_env.push_back("P2=y");
     }
-    want_env.push_back("A=1");
-    want_env.push_back("B=two words");
+    if (p.extra_kind == 2) {
+      want_env.push_back("A=1");
+      want_env.push_back("B=two words");
+    }
     std::vector<std::string> got_env;
     if (cp->env) {
       const wchar_t *e = cp->env;
@@ -564,10 +578,34 @@ CaseResult run_case(Tape &t, long sweep)
     if (got_env != want_env) {
       std::string g;
       for (auto &x : got_env) g += "[" + x + "]";
-      v.bad(CAT_LAUNCH, "environment-differs", ctx + "the environment block holds " + g + (cp->env ? "" : " (no block passed)"));
+      v.bad(CAT_LAUNCH, "environment-differs", ctx + "environment " + (p.env == 0 ? "extend" : "empty") + " with " + (p.extra_kind == 0 ? "no extras (NULL)" : p.extra_kind == 1 ? "an empty list of extras" : "two extras") + ": the block holds " + g + (cp->env ? "" : " (no block passed: the child inherits the parent's environment)"));
     }
     if (p.wd ? (!cp->cwd || std::wstring(cp->cwd) != L"C:\\work dir") : cp->cwd != nullptr) v.bad(CAT_LAUNCH, "wrong-working-directory", ctx + "the working directory passed to CreateProcessW is not the one requested");
     if (!(cp->flags & 0x400)) v.bad(CAT_LAUNCH, "no-unicode-environment", ctx + "CREATE_UNICODE_ENVIRONMENT is missing although a UTF-16 block is passed");
+  }
+
+  // ---- a child that closes what it did not ask for (the exit handle among it) and keeps running ----
+  if (started && !v.any && p.closes_extras) {
+    res.nontrivial = true;
+    res.cls("child-closed-its-exit-handle");
+    wsim_child_close_extras();
+    agenda.exit_at = wsim_now() + 900;
+    agenda.exit_code = p.exit_code;
+    int form = (int) (p.exit_code % 3);
+    reproc_stop_actions sa = { { REPROC_STOP_WAIT, 200 }, { REPROC_STOP_NOOP, 0 }, { REPROC_STOP_NOOP, 0 } };
+    int st = form == 0 ? reproc_wait(proc, 0) : form == 1 ? reproc_wait(proc, 200) : reproc_stop(proc, sa);
+    if (st >= 0 && (wsim_child_running() || (uint32_t) st != p.exit_code)) v.bad(CAT_STATUS, "status-while-running", ctx + "the child closed its inherited handles and kept running; " + (form == 0 ? "wait(0)" : form == 1 ? "wait(200)" : "stop(wait/200)") + " returned status " + std::to_string(st) + (wsim_child_running() ? " while it was still running" : ", it exited with " + std::to_string(p.exit_code)));
+    else if (st < 0 && st != REPROC_ETIMEDOUT) v.bad(CAT_STATUS, "wait-error", ctx + "the child closed its inherited handles and kept running; the wait returned " + std::to_string(st));
+    if (wsim_child_running()) {
+      agenda.exit_at = UINT64_MAX;
+      wsim_child_exit(p.exit_code);
+    }
+    int st2 = reproc_wait(proc, REPROC_INFINITE);
+    if (!v.any && st2 != (int) p.exit_code) v.bad(CAT_STATUS, st >= 0 ? "status-changed" : "wrong-status", ctx + "after the child's real end (exit code " + std::to_string(p.exit_code) + ") wait returned " + std::to_string(st2) + (st >= 0 ? "; " + std::to_string(st) + " had been returned before" : ""));
+    started = false;  // nothing else is exercised in this scenario; destroy and the ledger follow
+    reproc_t *ret0 = reproc_destroy(proc);
+    proc = nullptr;
+    (void) ret0;
   }
 
   // ---- life after start -------------------------------------------------------------
@@ -848,7 +886,7 @@ CaseResult run_case(Tape &t, long sweep)
     agenda.exit_at = wsim_now() + 700;
     agenda.exit_code = p.exit_code;
   }
-  reproc_t *ret = reproc_destroy(proc);
+  reproc_t *ret = proc ? reproc_destroy(proc) : nullptr;
   if (exits_in_time && (cp->ctrl_breaks != ctrl_before || cp->terminates != term_before)) v.bad(CAT_SIGNAL, "default-policy-signalled", ctx + "destroy with the default policy sent a console event / TerminateProcess although the child exited by itself while it was waited for");
   if (ret != nullptr) v.bad(CAT_LEDGER, "destroy-returned-non-null", ctx + "reproc_destroy did not return NULL");
   if (started && p.ending == 3 && wsim_child_running()) v.bad(CAT_SIGNAL, "abandoned-running-child", ctx + "destroy returned while the child was still running");
